@@ -1,0 +1,82 @@
+//go:build verif
+
+// Package verifhook re-exports a few internal pure functions to the verification
+// harness that lives outside this module. It is compiled only with the build tag verif.
+package verifhook
+
+import (
+	"github.com/sourcenetwork/defradb/client"
+	"github.com/sourcenetwork/defradb/internal/db"
+	"github.com/sourcenetwork/defradb/internal/db/base"
+	"github.com/sourcenetwork/defradb/internal/encoding"
+	"github.com/sourcenetwork/defradb/internal/keys"
+)
+
+func EncodeFieldValue(b []byte, val client.NormalValue, descending bool) []byte {
+	return encoding.EncodeFieldValue(b, val, descending)
+}
+
+func DecodeFieldValue(b []byte, descending bool, kind client.FieldKind) ([]byte, client.NormalValue, error) {
+	return encoding.DecodeFieldValue(b, descending, kind)
+}
+
+func EncodeVarintAscending(b []byte, v int64) []byte   { return encoding.EncodeVarintAscending(b, v) }
+func EncodeVarintDescending(b []byte, v int64) []byte  { return encoding.EncodeVarintDescending(b, v) }
+func EncodeUvarintAscending(b []byte, v uint64) []byte { return encoding.EncodeUvarintAscending(b, v) }
+func EncodeUvarintDescending(b []byte, v uint64) []byte {
+	return encoding.EncodeUvarintDescending(b, v)
+}
+func DecodeVarintAscending(b []byte) ([]byte, int64, error)  { return encoding.DecodeVarintAscending(b) }
+func DecodeVarintDescending(b []byte) ([]byte, int64, error) { return encoding.DecodeVarintDescending(b) }
+func DecodeUvarintAscending(b []byte) ([]byte, uint64, error) {
+	return encoding.DecodeUvarintAscending(b)
+}
+func DecodeUvarintDescending(b []byte) ([]byte, uint64, error) {
+	return encoding.DecodeUvarintDescending(b)
+}
+func PeekType(b []byte) int { return int(encoding.PeekType(b)) }
+
+// IndexKey builds and encodes an index data-store key.
+func IndexKey(colID, indexID uint32, vals []client.NormalValue, desc []bool) []byte {
+	fields := make([]keys.IndexedField, len(vals))
+	for i := range vals {
+		fields[i] = keys.IndexedField{Value: vals[i], Descending: desc[i]}
+	}
+	k := keys.NewIndexDataStoreKey(colID, indexID, fields)
+	return k.Bytes()
+}
+
+// IndexKeyPrefixEnd returns PrefixEnd of the index key built from the arguments.
+func IndexKeyPrefixEnd(colID, indexID uint32, vals []client.NormalValue, desc []bool) []byte {
+	fields := make([]keys.IndexedField, len(vals))
+	for i := range vals {
+		fields[i] = keys.IndexedField{Value: vals[i], Descending: desc[i]}
+	}
+	k := keys.NewIndexDataStoreKey(colID, indexID, fields)
+	return k.PrefixEnd()
+}
+
+// DecodeIndexKey decodes an index key; it returns the decoded values and flags.
+func DecodeIndexKey(
+	data []byte,
+	indexDesc *client.IndexDescription,
+	fields []client.FieldDefinition,
+) (uint32, uint32, []client.NormalValue, []bool, error) {
+	k, err := keys.DecodeIndexDataStoreKey(data, indexDesc, fields)
+	if err != nil {
+		return 0, 0, nil, nil, err
+	}
+	vals := make([]client.NormalValue, len(k.Fields))
+	desc := make([]bool, len(k.Fields))
+	for i, f := range k.Fields {
+		vals[i] = f.Value
+		desc[i] = f.Descending
+	}
+	return k.CollectionShortID, k.IndexID, vals, desc, nil
+}
+
+// Compare exposes base.Compare (the comparator used by the order node).
+func Compare(a, b any) int { return base.Compare(a, b) }
+
+// SetSchemaIDs exposes db.setSchemaIDs.
+func SetSchemaIDs(schemas []client.SchemaDescription) error { return db.VerifSetSchemaIDs(schemas) }
